@@ -1116,7 +1116,7 @@ Example T02s_escape_old_rule_partial_example :
   ies_old_fires body = true /\ se_none_of se_missing_list body = true /\ ies_fires (fun _ => None) body = true.
 Proof. exact ies_old_partial_example. Qed.
 
-(* deinterpolate_logging_args after a03c366 *)
+(* deinterpolate_logging_args after 79e10b7 *)
 Theorem T02s_logging_rule_partial :
   forall objs ps msg args enabled,
   lg_rule ps = Some (msg, args) -> lg_benign objs ps = true ->
@@ -1158,7 +1158,7 @@ Theorem T02s_logging_nospec_refuted :
 Proof. exact lg_nospec_refuted. Qed.
 Print Assumptions T02s_logging_nospec_refuted.
 
-(* the rule before a03c366: str.format placeholders handed to the logging module; the line is lost *)
+(* the rule before 79e10b7: str.format placeholders handed to the logging module; the line is lost *)
 Theorem T02s_logging_old_rule_refuted :
   exists objs ps msg args,
   lg_benign objs ps = true /\ lg_rule_old ps = Some (msg, args) /\
@@ -1238,7 +1238,7 @@ Example T02a_overused_constant_example :
   /\ plan_imm (oc_plan p) = true.
 Proof. exact oc_partial_example. Qed.
 
-(* missing_context_manager (after repairs 2ee0610, 54a5b4a), one rewrite in one statement list, every run: the same
+(* missing_context_manager (after repairs 7bedbf5, e19a6bf), one rewrite in one statement list, every run: the same
    outcome, and the final state is the same or differs by ONE handle closed (one more EvClose event) *)
 Theorem T02a_mcm_sound : forall b b', mcm1 b = Some b' ->
   forall o st, close_rel (exec_block o st b) (exec_block o st b').
@@ -1318,7 +1318,7 @@ Import ZArith.
 Import ListNotations.
 Import Pyrefact.RulesPerfModel Pyrefact.RulesPerfProofs.
 
-(* remove_redundant_iter (after 32fac44, 5ea8100, 116947d): for every module of the fragment, every world and
+(* remove_redundant_iter (after 32fac44, 5ea8100, 608b244): for every module of the fragment, every world and
    every loop budget the rewritten module ends with the same exception class, environment, lists, iterator
    positions and event trace. *)
 Theorem T02p_remove_redundant_iter_preserves : forall W fuel p, run W fuel (rri p) = run W fuel p.
@@ -1331,7 +1331,7 @@ Theorem T02p_old_iter_generator_refuted :
 Proof. exact rri_before_32fac44_refuted. Qed.
 Print Assumptions T02p_old_iter_generator_refuted.
 
-(* the rule before 116947d (names of lists): the loop body mutates what it iterates over (F02-65) *)
+(* the rule before 608b244 (names of lists): the loop body mutates what it iterates over (F02-65) *)
 Theorem T02p_old_iter_snapshot_refuted :
   exists W fuel p, obs (run W fuel (rri_before_116947d p)) <> obs (run W fuel p).
 Proof. exact rri_before_116947d_refuted. Qed.
@@ -1344,7 +1344,7 @@ Example T02p_iter_examples :
 Proof. repeat split; reflexivity. Qed.
 
 (* optimize_contains_types, the wrapper part ('a in list(c)' -> 'a in c', 'a in [c for c in xs]' -> generator;
-   after 2835a2e, 5ea8100, 1454583): preserved for every module *)
+   after 2835a2e, 5ea8100, cf0e3b9): preserved for every module *)
 Theorem T02p_contains_wrappers_preserves : forall W fuel p, run W fuel (oct_wrappers p) = run W fuel p.
 Proof. exact oct_wrappers_preserves. Qed.
 Print Assumptions T02p_contains_wrappers_preserves.
@@ -1359,7 +1359,7 @@ Theorem T02p_contains_partial : forall W fuel p, prog_all oct_safe p = true -> r
 Proof. exact oct_partial. Qed.
 Print Assumptions T02p_contains_partial.
 
-(* the rule before 2835a2e / 1454583 (any argument): an iterator is used up by list() but only up to the first
+(* the rule before 2835a2e / cf0e3b9 (any argument): an iterator is used up by list() but only up to the first
    hit by `in`; a generator expression stops at the first hit *)
 Theorem T02p_old_contains_consumption_refuted :
   exists W fuel p, obs (run W fuel (oct_before_2835a2e p)) <> obs (run W fuel p).
